@@ -57,7 +57,7 @@ def run(R, tier, seed):
             tasks.append(('grid', R, tier, ti))
             arm.append('grid')
     if not os.environ.get('VERIF_C20_NOGRID'):
-        for j in range(len(c20.wide_sessions())):
+        for j in range(len(c20.special_sessions())):
             tasks.append(('wide', R, j))
             arm.append('wide')
     for first in range(0, P['sessions'], P['chunk']):
@@ -76,6 +76,10 @@ def run(R, tier, seed):
         pa = per_arm.setdefault(a, dict(sessions=0, divergences=0))
         pa['sessions'] += r['sessions']
         pa['divergences'] += len(r['viol']) + len(r['notes'])
+        # a divergence that needs a failed construction or count among the predecessors is a violation too (see
+        # DESIGN 13): "all sequences of elections run back to back" includes attempts the package refused
+        r['viol'].extend(r['notes'])
+        r['notes'] = []
         total['sessions'] += r['sessions']
         total['keys'] |= r['keys']
         total['fps'] |= r['fps']
